@@ -561,11 +561,17 @@ class ServerWorld:
     in-memory loop.  One SSH connection / SFTP session serves many cases;
     the area is reset between cases."""
 
-    def __init__(self, sftp_version=3):
+    def __init__(self, sftp_version=3, openssh_order=False):
+        """openssh_order: the client announces itself as OpenSSH, so the
+        server reads FXP_SYMLINK arguments in OpenSSH's (reversed) order; the
+        request is then sent in that order."""
         self.mon = Monitor.get()
         self.area = Area()
         self.loop = new_loop()
         self.sftp_version = sftp_version
+        self.openssh_order = openssh_order
+        self.form = f'v{sftp_version}' + ('-openssh-order' if openssh_order
+                                          else '')
         self.server_obj = None
         world = self
 
@@ -583,7 +589,7 @@ class ServerWorld:
                 '127.0.0.1', 2222, known_hosts=None, config=None,
                 client_keys=None, username='u',
                 encryption_algs=['aes128-gcm@openssh.com'],
-                compression_algs=['none'])
+                compression_algs=['none'], **self._ckw())
             self.sftp = await self.conn.start_sftp_client(
                 sftp_version=sftp_version)
         self.loop.run_until_complete(start())
@@ -598,6 +604,10 @@ class ServerWorld:
                    'rmdir'):
             self.request(op, b'warm')
         self.area.reset()
+
+    def _ckw(self):
+        return {'client_version': 'OpenSSH_9.2-c13'} if self.openssh_order \
+            else {}
 
     def reset(self, tree=None):
         with self.mon.quiet():
@@ -654,7 +664,12 @@ class ServerWorld:
         elif op == 'link':
             await s.link(p, q)
         elif op == 'symlink':
-            await s.symlink(p, q)
+            if self.openssh_order and self.sftp_version < 6:
+                # the server reads (target, link path); this client writes
+                # (link path, target): hand them over swapped
+                await s.symlink(q, p)
+            else:
+                await s.symlink(p, q)
         else:
             raise ValueError(op)
 
@@ -701,7 +716,7 @@ class ServerWorld:
                 '127.0.0.1', 2222, known_hosts=None, config=None,
                 client_keys=None, username='u',
                 encryption_algs=['aes128-gcm@openssh.com'],
-                compression_algs=['none'])
+                compression_algs=['none'], **self._ckw())
             self.sftp = await self.conn.start_sftp_client(
                 sftp_version=self.sftp_version)
         self.loop.run_until_complete(again())
@@ -1202,21 +1217,13 @@ PROBE_OPS_BEYOND = ['lstat', 'open_r', 'opendir', 'open_w', 'remove', 'mkdir',
                     'rmdir']
 
 
-def run_script(world, init_tree, script, final_tree, escset, probes=None):
-    """One generated script: replay it (monitor after every step, final tree
-    compared with the model's), then the probe battery: every probe operation
-    through every symbolic link below the root (the link itself and one name
-    beyond it).  escset: {(op, path string)} the model expects to escape.
-    Returns dict(build=<run_sequence result>, uses=[(op, path, causes,
-    events)], diverged=[...], nprobes=int)."""
-    pred = [(None, False, None)] * (len(script) - 1) + \
-        [(None, False, final_tree)] if script else []
-    build = run_sequence(world, init_tree, script, pred or None)
-    out = dict(build=build, uses=[], diverged=[], nprobes=0)
-    if build['diverged']:
-        out['diverged'].append(build['diverged'])
-    if build['escapes']:
-        return out
+def probe_links(world, init_tree, script, build, escset=None, probes=None):
+    """The probe battery on the state `build` (a run_sequence result of
+    `script`) left behind: every probe operation through every symbolic link
+    below the root (the link itself and one name beyond it), the monitor
+    evaluated on each.  escset: {(op, path)} the model expects to escape
+    (None: no prediction).  -> (uses, diverged, nprobes)"""
+    uses, diverged, nprobes = [], [], 0
     tree = build['tree']
     links = sorted(loc for loc, v in tree.items()
                    if v[0] == 'link' and loc[:2] == ('T', 'R'))
@@ -1231,23 +1238,57 @@ def run_script(world, init_tree, script, final_tree, escset, probes=None):
     for path, ops in paths:
         for op in ops:
             if dirty:
-                again = run_sequence(world, init_tree, script)
+                again = run_sequence(world, init_tree, script, stop=False)
                 book = again['book']
                 dirty = False
             st, _detail, events = world.request(op, path.encode(), b'')
-            out['nprobes'] += 1
+            nprobes += 1
             bad = world.judge(events)
-            want = (op, path) in escset
             if bad:
                 causes = sorted(set(book.classify(e) for e in bad))
-                out['uses'].append((op, path, causes,
-                                    [e.as_list() for e in bad[:3]]))
-            if bool(bad) != want:
-                out['diverged'].append(
+                uses.append((op, path, causes, [e.as_list() for e in bad[:3]]))
+            if escset is not None and bool(bad) != ((op, path) in escset):
+                diverged.append(
                     f'probe {op} {path!r}: escape observed={bool(bad)} '
-                    f'predicted={want}')
+                    f'predicted={(op, path) in escset}')
             if op in MUTATING_OPS and (st == 'ok' or bad):
                 dirty = _shape(world.tree()) != base or bool(bad)
+    return uses, diverged, nprobes
+
+
+def suspicious(build):
+    """A replayed sequence deserves the probe battery although no model
+    prediction asks for it: the code and the model disagree, or some link
+    below the root physically resolves outside it."""
+    if build['diverged']:
+        return True
+    book = build['book']
+    return any(v[0] == 'link' and loc[:2] == ('T', 'R') and book._outward(loc)
+               for loc, v in build['tree'].items())
+
+
+def run_script(world, init_tree, script, final_tree, escset, probes=None,
+               always=True):
+    """One generated script: replay it (monitor after every step, final tree
+    compared with the model's), then the probe battery (always, or only when
+    the result is suspicious()).  Whatever the model predicted and whether or
+    not code and model already disagree, every escape the monitor sees is
+    returned (uses / build['escapes']) and becomes a violation.
+    Returns dict(build=<run_sequence result>, uses=[(op, path, causes,
+    events)], diverged=[...], nprobes=int)."""
+    pred = [(None, False, None)] * (len(script) - 1) + \
+        [(None, False, final_tree)] if script else []
+    build = run_sequence(world, init_tree, script, pred or None)
+    out = dict(build=build, uses=[], diverged=[], nprobes=0)
+    if build['diverged']:
+        out['diverged'].append(build['diverged'])
+    if build['escapes']:
+        return out
+    if always or suspicious(build):
+        uses, div, n = probe_links(world, init_tree, script, build,
+                                   escset if always else None, probes)
+        out['uses'], out['nprobes'] = uses, n
+        out['diverged'] += div
     return out
 
 
